@@ -265,4 +265,154 @@ def parseNoBase (idna : Spec.Idna) (input : Bytes) : Out :=
     | some r => .ok r
     | none => machine idna input
 
+/-! ### with a base: NO_SCHEME, SPECIAL_RELATIVE_OR_AUTHORITY, RELATIVE_SCHEME, RELATIVE_SLASH, FILE / FILE_SLASH with a file base -/
+
+/-- PATH and QUERY with a path already in the object -/
+def pathQFrom (sp : Bool) (ty : Nat) (path0 : Bytes) (t : Bytes) : Bytes × Option Bytes :=
+  let view := t.takeWhile (· != 0x3F)
+  let q := if view.length < t.length then some (t.drop (view.length + 1)) else none
+  (PathPrepared.parsePreparedPath view ty path0, q.map (Spec.percentEncode (if sp then Spec.inSpecialQuery else Spec.inQuery)))
+
+def encFrag (frag : Option Bytes) : Option Bytes := frag.map (Spec.percentEncode Spec.inFragment)
+
+/-- the object after "set url's username … query to base's" with the given path and query -/
+def inherit (b : Rec) (frag : Option Bytes) (path : Bytes) (query : Option Bytes) : Out :=
+  .ok { scheme := b.scheme, special := b.special, username := b.username, password := b.password, host := b.host, port := b.port,
+        path := path, query := query, hash := encFrag frag, opq := b.opq }
+
+/-- RELATIVE_SLASH -/
+def relativeSlash (idna : Spec.Idna) (b : Rec) (frag : Option Bytes) (r : Bytes) : Out :=
+  let sp := b.special
+  let ty := getSchemeType b.scheme
+  let pathOnly : Out :=
+    let (path, q) := pathQ sp ty r
+    .ok { scheme := b.scheme, special := sp, username := b.username, password := b.password, host := b.host, port := b.port,
+          path := path, query := q, hash := encFrag frag, opq := false }
+  match r with
+  | c :: r' =>
+    if sp && (c == 0x2F || c == 0x5C) then afterSlashes idna true ty b.scheme frag (r'.dropWhile (fun c => c == 0x2F || c == 0x5C))
+    else if c == 0x2F then afterSlashes idna false ty b.scheme frag r'
+    else pathOnly
+  | [] => pathOnly
+
+/-- RELATIVE_SCHEME -/
+def relativeScheme (idna : Spec.Idna) (b : Rec) (frag : Option Bytes) (t : Bytes) : Out :=
+  let sp := b.special
+  let ty := getSchemeType b.scheme
+  match t with
+  | [] => inherit b frag b.path b.query
+  | c :: r =>
+    if c == 0x2F || (sp && c == 0x5C) then relativeSlash idna b frag r
+    else if c == 0x3F then inherit b frag b.path (some (Spec.percentEncode (if sp then Spec.inSpecialQuery else Spec.inQuery) r))
+    else
+      let (path, q) := pathQFrom sp ty (PathPrepared.shortenPath b.path ty) t
+      inherit b frag path q
+
+/-- the object of a `file` URL that takes its host from the base -/
+def fileInherit (b : Rec) (frag : Option Bytes) (path : Bytes) (query : Option Bytes) (opq : Bool) : Out :=
+  .ok { scheme := Spec.bFile, special := true, username := [], password := [], host := b.host, port := none,
+        path := path, query := query, hash := encFrag frag, opq := opq }
+
+/-- FILE_SLASH, "otherwise" branch, with a base of type FILE (`fb`) or none -/
+def fileSlashOther (fb : Option Rec) (frag : Option Bytes) (r : Bytes) : Out :=
+  match fb with
+  | none => filePath frag r
+  | some b =>
+    let first := (b.path.drop 1).takeWhile (· != 0x2F)
+    let path0 := if !b.path.isEmpty && !PathPrepared.isWindowsDriveLetter r && PathPrepared.isNormalizedWindowsDriveLetter first
+                 then 0x2F :: first else []
+    let (path, q) := pathQFrom true 6 path0 r
+    fileInherit b frag path q false
+
+/-- FILE_SLASH -/
+def fileSlashB (idna : Spec.Idna) (fb : Option Rec) (frag : Option Bytes) (r : Bytes) : Out :=
+  match r with
+  | c :: r' => if c == 0x2F || c == 0x5C then fileHost idna frag r' else fileSlashOther fb frag r
+  | [] => fileSlashOther fb frag r
+
+/-- FILE, the branches that do not lead to FILE_SLASH -/
+def fileOther (fb : Option Rec) (frag : Option Bytes) (t : Bytes) : Out :=
+  match fb with
+  | none => filePath frag t
+  | some b =>
+    match t with
+    | [] => fileInherit b frag b.path b.query b.opq
+    | c :: r =>
+      if c == 0x3F then fileInherit b frag b.path (some (Spec.percentEncode Spec.inSpecialQuery r)) b.opq
+      else
+        let path0 := if !PathPrepared.isWindowsDriveLetter t then PathPrepared.shortenPath b.path 6 else []
+        let (path, q) := pathQFrom true 6 path0 t
+        fileInherit b frag path q b.opq
+
+/-- FILE with a base of type FILE (`fb`) or none -/
+def fileB (idna : Spec.Idna) (fb : Option Rec) (frag : Option Bytes) (t : Bytes) : Out :=
+  match t with
+  | c :: r => if c == 0x2F || c == 0x5C then fileSlashB idna fb frag r else fileOther fb frag t
+  | [] => fileOther fb frag t
+
+def fileBase (b : Rec) : Option Rec := if getSchemeType b.scheme == 6 then some b else none
+
+/-- the state machine with a base -/
+def machineB (idna : Spec.Idna) (b : Rec) (input : Bytes) : Out :=
+  let (d, frag) := prep input
+  match schemeScan d with
+  | none =>
+    -- NO_SCHEME
+    let cIsHash := frag.isSome && d.isEmpty
+    if b.opq && !cIsHash then .invalid
+    else if b.opq then
+      .ok { scheme := b.scheme, special := b.special, username := [], password := [], host := none, port := none, path := b.path,
+            query := b.query, hash := encFrag frag, opq := true }
+    else if getSchemeType b.scheme != 6 then relativeScheme idna b frag d
+    else fileB idna (fileBase b) frag d
+  | some (name, rest) =>
+    let (ty, scheme) := parseSchemeNoOverride name
+    if ty == 6 then fileB idna (fileBase b) frag rest
+    else if ty != 1 && getSchemeType b.scheme == ty then
+      -- SPECIAL_RELATIVE_OR_AUTHORITY: `url_data.substr(input_position, 2) == "//"`
+      if rest.take 2 == [0x2F, 0x2F] then afterSlashes idna true ty scheme frag ((rest.drop 2).dropWhile (fun c => c == 0x2F || c == 0x5C))
+      else relativeScheme idna b frag rest
+    else if ty == 1 then afterSchemeNS idna scheme frag rest
+    else afterScheme idna ty scheme frag rest
+
+/-- the text on which AUTHORITY starts behind RELATIVE_SLASH (and whether the scheme is special) -/
+def relAuthSlash (sp : Bool) (r : Bytes) : Option (Bool × Bytes) :=
+  match r with
+  | c2 :: r' =>
+    if sp && (c2 == 0x2F || c2 == 0x5C) then some (true, r'.dropWhile (fun c => c == 0x2F || c == 0x5C))
+    else if c2 == 0x2F then some (false, r')
+    else none
+  | [] => none
+
+/-- … behind RELATIVE_SCHEME -/
+def relAuth (b : Rec) (t : Bytes) : Option (Bool × Bytes) :=
+  match t with
+  | c :: r => if c == 0x2F || (b.special && c == 0x5C) then relAuthSlash b.special r else none
+  | [] => none
+
+/-- the text on which AUTHORITY starts, when `machineB` gets there -/
+def authStartB (b : Rec) (input : Bytes) : Option (Bool × Bytes) :=
+  let d := (prep input).1
+  match schemeScan d with
+  | none => if b.opq || getSchemeType b.scheme == 6 then none else relAuth b d
+  | some (name, rest) =>
+    let ty := (parseSchemeNoOverride name).1
+    if ty == 6 then none
+    else if ty != 1 && getSchemeType b.scheme == ty then
+      if rest.take 2 == [0x2F, 0x2F] then some (true, (rest.drop 2).dropWhile (fun c => c == 0x2F || c == 0x5C))
+      else relAuth b rest
+    else (authText (ty != 1) rest).map (fun t => (ty != 1, t))
+
+/-- the text on which HOST starts (behind the credentials), and `is_special()` there -/
+def hostStartB (b : Rec) (input : Bytes) : Bool × Bytes :=
+  match authStartB b input with
+  | none => (true, [])
+  | some (sp, text) =>
+    match authority sp text with
+    | none => (sp, [])
+    | some (v, _) => (sp, v)
+
+/-- `parse_url_impl<ada::url, true>(input, &base)` for a valid base object -/
+def parseWithBase (idna : Spec.Idna) (b : Rec) (input : Bytes) : Out := machineB idna b input
+
 end AdaVerif.Model.ParseSpecial
